@@ -1,11 +1,12 @@
 #!/usr/bin/env python3
 """Development aid (not a registered check): which lines of a property's anchor files does its generator reach?
 
-usage: bin/coverage.py Cnn [--cases N] [--files a.cpp,b.cpp] [--show]
+usage: bin/coverage.py Cnn|ALL [--cases N] [--files a.cpp,b.cpp] [--show] [--branches]
 Builds the library and the property's harnesses with clang source coverage (variant "cov", no sanitizers), runs the
 rapidcheck engine with the quick tier's size on 4 seeds plus the committed corpus, merges the profiles and prints
   - llvm-cov's per-file summary for the anchor files of the property (properties.jsonl: anchors.files), and
   - with --show, every *uncovered* line of those files, grouped by function (the generator blind spots to look at).
+  - with --branches, every branch of a covered line that was only ever taken one way.
 Output: .work/coverage-Cnn.txt.  Used to find generator blind spots; says nothing about oracles.
 """
 import glob, json, os, shutil, subprocess, sys
@@ -34,6 +35,19 @@ def report(prof, exes, files, name):
             if len(parts) == 3:
                 if parts[1].strip() == "0":
                     out.append("%s:%s" % (cur, line))
+            elif line.endswith(":") and "/" in line:
+                cur = os.path.basename(line[:-1])
+    if "--branches" in sys.argv:
+        # branches of covered lines that were only ever taken one way
+        r = subprocess.run(["llvm-cov", "show", "-instr-profile=" + prof, "--show-branches=count", "--show-line-counts"] + objs + srcs, stdout=subprocess.PIPE, text=True)
+        cur = os.path.basename(files[0]); last_src = ""
+        for line in r.stdout.splitlines():
+            parts = line.split("|", 2)
+            st = line.strip().lstrip("|").strip()
+            if st.startswith("Branch (") and (st.endswith("True: 0, False: 0]") is False) and ("True: 0," in st or st.endswith("False: 0]")):
+                out.append("%s: ONE-WAY %s   <- %s" % (cur, st, last_src.strip()[:110]))
+            elif len(parts) == 3 and parts[0].strip().isdigit():
+                last_src = parts[0].strip() + ": " + parts[2]
             elif line.endswith(":") and "/" in line:
                 cur = os.path.basename(line[:-1])
     text = "\n".join(out)
